@@ -43,6 +43,45 @@ CLAIMED = {
    design="3/C17"),
 }
 
+
+CLAIMED.update({
+ "C01": dict(
+   technique=CH + "; real LALR driver + tables behind a stub lexer (CH-drv); uninterpreted int(); z3 regex queries on the token rules",
+   text="Bounded symbolic checking: a column under test (4 type forms) at a symbolic position of a 3-column table with two options chosen by symbolic indices from a 12-option catalogue (any order) goes through the real LALR driver, semantic actions and output post-processing and must equal a reference model; DEFAULT words / literals / numerals and size numerals are symbolic strings at action level (int uninterpreted); lexer keyword and name lemmas in the column contexts; z3 decides that every identifier word is one ID token (no earlier token rule splits it).",
+   note="Trusted: token-type contract between lexer lemma and driver harness; any number of columns/options by the LR step argument on paper (the solver covers 3 columns x 2 options). Outside: <...>/array types, CHECK/COMMENT/COLLATE/GENERATED options, default expressions.",
+   design="3/C01"),
+ "C02": dict(
+   technique=CH + "; real LALR driver + tables behind a stub lexer against a reference model of keys / uniques / checks / references",
+   text="Bounded symbolic checking: three columns (four name sets incl. names differing only by case or delimiters; inline PRIMARY KEY / UNIQUE / named REFERENCES symbolic) followed by two table-level items chosen by symbolic indices among 18 (PRIMARY KEY 1-3 columns incl. ASC/DESC parts, named PK, UNIQUE 1-3 columns, named UNIQUE, FOREIGN KEY 1-3 columns with ON DELETE/UPDATE and schema, named FK, CHECK, named CHECK) through the real driver, actions and BaseData post-processing: primary_key, forced NOT NULL, unique flags, constraints, checks and references equal the reference model.",
+   note="Trusted: README conventions for the reference model (UC_<cols>, named FK under constraints.references); more than two items by the LR step argument on paper. Outside: DEFERRABLE, MSSQL clustered PK, two-word ON UPDATE actions.",
+   design="3/C02"),
+ "C04": dict(
+   technique=CH + "; front end executed concretely at import, real Output/BaseData under symbolic addressing",
+   text="Bounded symbolic checking of the real Output/BaseData: for each of 11 statement kinds (add/drop/rename/modify column, ADD PRIMARY KEY / UNIQUE 1 and 2 columns / CHECK / DEFAULT FOR / FOREIGN KEY 2 columns, CREATE INDEX) the statement addressed with a symbolic (schema spelling, name spelling) reaches exactly the table whose own spelling, schema and position are symbolic when both agree modulo delimiters and case, applies the declared effect, leaves the other table (same name in another schema / other name / near name) untouched, and raises ValueError when nothing matches; sequences of three ALTERs (7 kinds) evolve the column list as a reference model; a later run does not see an earlier run's tables.",
+   note="Trusted: statement dicts produced by the real parser at import; filter_out_output executed natively. Outside: back-tick delimited addresses, three-part names, FK ALTER on a column the table lacks.",
+   design="3/C04"),
+ "C08": dict(
+   technique=CH + "; parser stubbed by the identity, relational postcondition against the comment-free script",
+   text="Bounded symbolic checking of the real line/comment state machine of parser.py: one comment of each of 6 kinds (whole-line --, #, /* */, trailing --, trailing /* */, multi-line block) at a symbolic line position of a two-statement script with a symbolically chosen text (12 catalogued texts incl. ';'-terminated and GO/USE/INSERT/DELETE/ALTER/CREATE-leading): statements handed to the parser equal those of the comment-free script; everything else is the comments entry made of comment text only.",
+   note="Trusted: identity stub for yacc.parse; input in unicode_escape form. Outside: quotes inside comments, comment markers inside literals, several comments per script.",
+   design="3/C08"),
+ "C14": dict(
+   technique=CH + "; two parse_data()/Output runs on one object compared",
+   text="Bounded symbolic checking: parse_data() twice on one parser object over scripts with a comment (kind fixed per process, position and text symbolic) and a symbolic last line: the second result equals the first and the first result object is unchanged; Output does not carry tables from one run to the next (C04.norun).",
+   note="Trusted: identity stub for yacc.parse. Outside: file-system side effects, other processes / hash seeds beyond table generation (planned LR query).",
+   design="3/C14"),
+ "C16": dict(
+   technique=CH + "; z3 regex first-character coverage of the token rules",
+   text="Bounded symbolic checking: p_error raises DDLParserError iff silent is False, for a token and for end-of-input (None); run(output_mode=m) raises SimpleDDLParserException naming all 15 modes for every string m (<= 4 chars) outside them whatever the script yields, and accepts each of the 15; z3 enumerates the printable characters that can start no token (t_error raises on them regardless of silent): exactly the recorded finding {'^'}.",
+   note="Trusted: PLY's p_error protocol; supported DDL never reaching p_error rests on the no-error results of the CH-drv obligations. Known finding: unknown symbol raises under silent=True.",
+   design="3/C16"),
+ "C19": dict(
+   technique=CH + "; recording fakes for open / DDLParser / dump_data_to_file / parse_from_file",
+   text="Bounded symbolic checking (partial claim): parse_from_file passes exactly the read content, encoding, parser settings, file_path and run arguments; run(dump=True, file_path=p) dumps exactly once, under p's base name, the very result it returns - also when it is empty - and nothing when dump is False; correct_extension accepts exactly names whose last extension is sql/ddl/hql/bql; run_for_file forwards --no-dump / -t / -o.",
+   note="Outside (not encodable): codecs, real files and directories, the sdp process. Replays of counterexamples do use real temporary files.",
+   design="3/C19"),
+})
+
 NA_REASON = {
  "C15": "concurrency and PLY process-global aliasing: thread schedules and object-identity histories are not data the available solver engines (CrossHair single-threaded per-path re-execution, z3 over tables) can quantify over; see DESIGN.md section 4",
 }
